@@ -2,12 +2,13 @@
 // spec -> impl, mechanism M3') and specs/ds/NearestNeighborsTrace.tla (recorded random histories,
 // impl -> spec) to the four nearest-neighbour structures of ompl.
 //
-//   nn replay <graph> <depth> <structure|all> <params|all> <walks> <walklen> <alphabet> <reuse>
+//   nn replay <graph> <depth> <structure|all> <params|all> <walks> <walklen> <alphabet> <reuse> [i/n]
 //        every path of length <= depth through the contract graph (0 = none) plus <walks> random
 //        walks of <walklen> steps, on each selected structure x tree parameterisation.
 //        alphabet: full | noabsent (RemoveAbsent edges only in the random walks and the battery)
 //        reuse: 0 = every added element gets a new identity, 1 = an Add re-uses the identity of the
 //               element most recently removed at that point (re-insertion of a removed element)
+//        i/n: only the histories whose first step is the i-th (mod n) edge of the initial state
 //   nn scenario <graph> <scenario.json>      re-run one reported scenario, observing every step
 //   nn record <out> <structure> <params> <nexec> <nops>   random histories with observations
 //
@@ -720,6 +721,36 @@ static void loadCtx(Ctx &ctx, const vt::Graph &g)
         }
 }
 
+// vt::walkAllPaths restricted to the histories whose first step is the i-th, (i+n)-th, ... edge of
+// the initial state, so that one deep enumeration can be spread over several processes
+template <class D, class Make, class Pred>
+static void walkAllPathsShard(const vt::Graph &g, vt::Report &rep, Make make, int depth, Pred use, int shard, int nshards)
+{
+    if (nshards <= 1)
+    {
+        vt::walkAllPaths<D>(g, rep, make, depth, use);
+        return;
+    }
+    std::vector<int> path;
+    std::function<void(int)> rec = [&](int s) {
+        if ((int)path.size() == depth)
+            return;
+        int j = 0;
+        for (int e : g.out[s])
+        {
+            if (!use(g.edges[e]))
+                continue;
+            if (path.empty() && (j++ % nshards) != shard)
+                continue;
+            path.push_back(e);
+            vt::runScenario<D>(g, path, path.size() - 1, rep, make);
+            rec(g.edges[e].d);
+            path.pop_back();
+        }
+    };
+    rec(0);
+}
+
 static int replayMain(int argc, char **argv)
 {
     if (argc < 10)
@@ -734,6 +765,9 @@ static int replayMain(int argc, char **argv)
     int walkLen = atoi(argv[7]);
     bool full = std::string(argv[8]) == "full";
     bool reuse = atoi(argv[9]) != 0;
+    int shard = 0, nshards = 1;
+    if (argc > 10)
+        sscanf(argv[10], "%d/%d", &shard, &nshards);
     Ctx ctx;
     loadCtx(ctx, g);
     ctx.reuse = reuse;
@@ -755,8 +789,8 @@ static int replayMain(int argc, char **argv)
             long sc0 = rep.scenarios, st0 = rep.steps, f0 = rep.failures;
             auto make = [&]() { return Driver(&ctx); };
             if (depth > 0)
-                vt::walkAllPaths<Driver>(g, rep, make, depth,
-                                         [&](const vt::Edge &e) { return full || e.a != "RemoveAbsent"; });
+                walkAllPathsShard<Driver>(g, rep, make, depth,
+                                          [&](const vt::Edge &e) { return full || e.a != "RemoveAbsent"; }, shard, nshards);
             long exhaustive = rep.scenarios - sc0;
             if (walks > 0)
             {
